@@ -65,7 +65,7 @@ func directiveInsertWordBreaks(value data.Value, args []data.Value) data.Value {
 		}
 	}
 	if output == nil {
-		return value
+		return data.String(input)
 	}
 	return data.String(output.String())
 }
